@@ -194,7 +194,7 @@ def check(ctx):
             ctx.violation('property', 'the refused second `vsb upload` went on after failing to take the lock: %s' % c['went_on'][:3], {'case': c})
         elif not c['storage_unchanged']:
             ctx.violation('property', 'the second run modified the storage while the first was held at %s' % c['point'], {'case': c})
-        elif c['dt2'] > 10:
+        elif c['dt2'] > 2.0:        # ("immediately": an unloaded second run needs a few hundredths of a second to start, look and fail)
             ctx.violation('property', 'the second run blocked for %.1fs instead of failing immediately' % c['dt2'], {'case': c})
         if not c['point'].startswith('upload-') and c['rc1'] != 0:
             ctx.violation('property', 'run 1 did not complete after being released at %s (exit %s)' % (c['point'], c['rc1']), {'case': c})
